@@ -265,8 +265,9 @@ HUGE = [2 ** 70, -2 ** 70]
 
 def pool_for(name):
     if name == 'time':
-        good = [0, 1, -1, 2 ** 70, T('float', 0.5), T('float', -3.25), T('fraction', [1, 3])]
-        bad = ['1', 'abc', None, [1], T('tuple', [1]), T('bytes', [1])]
+        good = [0, 1, -1, 2 ** 70, 10 ** 400, T('float', 0.5), T('float', -3.25), T('fraction', [1, 3])]
+        bad0 = [' 1e3 ', 'nan', T('bytes', [55])]
+        bad = ['1', 'abc', None, [1], T('tuple', [1]), T('bytes', [1])] + bad0
         return good, bad
     if name == 'data':
         good = [[], [0], [127], [1, 2, 3], T('tuple', [5, 6]), T('bytes', [7, 8]), T('bytearray', [9]),
@@ -355,6 +356,19 @@ def check_alias():
         d['time'] = 'x'
         if tuple(m.data) != (1, 2, 3) or m.time != 0:
             out.append(fail('result-aliased', f'editing the result of dict() changed the message: {m!r}', how=how))
+    for t in R.ALL_TYPES:
+        m = mido.Message(t)
+        before = snap(m)
+        d = m.dict()
+        for k in list(d):
+            d[k] = 'scribble'
+        d['extra'] = 1
+        d.pop('time', None)
+        if snap(m) != before:
+            out.append(fail('result-aliased', f'editing the dict returned by {t}.dict() changed the message: {vars(m)!r}',
+                            how='dict'))
+        v = vars(m)
+        del v
     return out
 
 
